@@ -126,6 +126,26 @@ def mkCfg [Inhabited L] (g : G) (jobs : List (JobSt K V G L)) : Cfg K V G L :=
 
 end
 
+/-! ### what the registry's Once body computes: sorted groups (registry.go:68-75, 77-101)
+
+    `resolveGroups` walks `r.groups` — a Go map, so in an order that differs from run to run — appends the
+    formats of the dependency groups and sorts every group with `sortFormats`.  The comparator
+    (registry.go:69-74): equal ProbeOrder → compare names, else compare ProbeOrder.  Format names are
+    unique (`Registry.Format` panics on a second registration of a name, registry.go:44-46). -/
+
+structure Fmt where
+  name : String
+  probeOrder : Nat
+deriving DecidableEq, Repr
+
+/-- `sortFormats`' comparator as a `≤` (cmp result ≤ 0) -/
+def fmtLe (a b : Fmt) : Bool :=
+  if a.probeOrder = b.probeOrder then decide (a.name ≤ b.name) else decide (a.probeOrder < b.probeOrder)
+
+/-- the model sorts with merge sort; `Props.C18.any_sort_agrees` shows that every correct sorting
+    algorithm (Go's pdqsort in slices.SortFunc included) returns this very list -/
+def sortFormats (l : List Fmt) : List Fmt := l.mergeSort fmtLe
+
 /-! ### a concrete instance used for the non-vacuity examples and the necessity witness
 
     K = Unit (the registry), V = Nat (resolved groups, abstracted), G = Nat (the MaxUnknown field of a
